@@ -271,66 +271,100 @@ def main():
             else:
                 tie_notes.append(f"leanchecker {props_mod}: ok")
 
-    # ---- 4 harness ---------------------------------------------------------------------------
-    outdir = os.path.join(work, "run")
-    os.makedirs(outdir, exist_ok=True)
-    for fn in ("ops.txt", "impl.txt", "oracle.txt", "dist.json", "model.txt"):
-        p = os.path.join(outdir, fn)
-        if os.path.exists(p):
-            os.remove(p)
-    with Lock("cargo.lock"):
-        rc, out = run(["cargo", "build", "--offline"], cwd=HARNESS)
-    log.write(out)
-    harness_ok = rc == 0
-    if not harness_ok:
-        say("harness does not build against /repo's working tree:\n" + out[-1500:])
-        broken_theorems.append("correspondence harness build (API used by the harness changed)")
-    dist = {}
-    failures = []
-    disagreements = []
-    n_ops = 0
-    n_compared = 0
-    if harness_ok:
-        cmd = [os.path.join(HARNESS, "target", "debug", "egv"), pid, tier, str(seed), outdir]
-        if replay:
-            rj = json.load(open(replay))
-            opsf = os.path.join(outdir, "replay.ops")
-            with open(opsf, "w") as f:
-                for o in rj.get("ops", []):
-                    f.write(o + "\n")
-            cmd += ["--ops", opsf]
-        rc, out = run(cmd, cwd=HARNESS, timeout=7200)
+    # ---- 4 harness + 5 driver/diff ---------------------------------------------------------------
+    def harness_run(run_tier, outdir, features=None, ops_file=None, compare=True, timeout=7200):
+        """build egv (optionally with cargo features, in its own target dir), run it, run the model
+        driver on the same ops and diff. Returns a dict."""
+        res = {"dist": {}, "failures": [], "disagreements": [], "n_ops": 0, "n_compared": 0, "errors": [], "outdir": outdir}
+        os.makedirs(outdir, exist_ok=True)
+        for fn in ("ops.txt", "impl.txt", "oracle.txt", "dist.json", "model.txt"):
+            pth = os.path.join(outdir, fn)
+            if os.path.exists(pth):
+                os.remove(pth)
+        tdir = os.path.join(HARNESS, "target" if not features else "target-" + features.replace(",", "-"))
+        bcmd = ["cargo", "build", "--offline", "--target-dir", tdir]
+        if features:
+            bcmd += ["--features", features]
+        with Lock("cargo.lock"):
+            rc, out = run(bcmd, cwd=HARNESS)
+        log.write(out)
+        if rc != 0:
+            say(f"harness{' [' + features + ']' if features else ''} does not build against the repository's working tree:\n" + out[-1500:])
+            res["errors"].append("correspondence harness build" + (f" [{features}]" if features else "") + " (API used by the harness changed)")
+            return res
+        cmd = [os.path.join(tdir, "debug", "egv"), pid, run_tier, str(seed), outdir]
+        if ops_file:
+            cmd += ["--ops", ops_file]
+        try:
+            rc, out = run(cmd, cwd=HARNESS, timeout=timeout)
+        except subprocess.TimeoutExpired:
+            res["errors"].append(f"egv {run_tier} timed out after {timeout}s")
+            return res
         log.write(out)
         if rc != 0:
             say("egv failed:", out[-800:])
-            broken_theorems.append(f"egv run rc={rc}")
-        else:
-            dist = json.load(open(os.path.join(outdir, "dist.json")))
-            for line in open(os.path.join(outdir, "oracle.txt")):
-                parts = line.rstrip("\n").split("\t")
-                if len(parts) >= 3:
-                    failures.append({"op_index": int(parts[0]), "class": parts[1], "detail": parts[2]})
-            # ---- 5 driver + diff -------------------------------------------------------------
-            drv = os.path.join(LEAN, ".lake", "build", "bin", "egdriver")
-            if os.path.exists(drv) and rc_d == 0:
-                with open(os.path.join(outdir, "ops.txt")) as fi, open(os.path.join(outdir, "model.txt"), "w") as fo:
-                    p = subprocess.run([drv], stdin=fi, stdout=fo, stderr=subprocess.PIPE, text=True)
-                if p.returncode != 0:
-                    broken_theorems.append(f"egdriver run rc={p.returncode}: {p.stderr[-200:]}")
-                ops = open(os.path.join(outdir, "ops.txt")).read().split("\n")
-                impl = open(os.path.join(outdir, "impl.txt")).read().split("\n")
-                model = open(os.path.join(outdir, "model.txt")).read().split("\n")
-                n_ops = len([o for o in ops if o])
-                for k in range(n_ops):
-                    mline = model[k] if k < len(model) else "<missing>"
-                    if mline == "skip":
-                        continue
-                    n_compared += 1
-                    if mline != impl[k]:
-                        if len(disagreements) < 50:
-                            disagreements.append({"op_index": k, "op": ops[k][:2000], "impl": impl[k][:2000], "model": mline[:2000]})
-                        else:
-                            disagreements.append(None)
+            res["errors"].append(f"egv run rc={rc}")
+            return res
+        res["dist"] = json.load(open(os.path.join(outdir, "dist.json")))
+        for line in open(os.path.join(outdir, "oracle.txt")):
+            parts = line.rstrip("\n").split("\t")
+            if len(parts) >= 3:
+                res["failures"].append({"op_index": int(parts[0]), "class": parts[1], "detail": parts[2], "outdir": outdir, "features": features})
+        ops = open(os.path.join(outdir, "ops.txt")).read().split("\n")
+        res["n_ops"] = len([o for o in ops if o])
+        drv = os.path.join(LEAN, ".lake", "build", "bin", "egdriver")
+        if compare and os.path.exists(drv) and rc_d == 0:
+            with open(os.path.join(outdir, "ops.txt")) as fi, open(os.path.join(outdir, "model.txt"), "w") as fo:
+                pr = subprocess.run([drv], stdin=fi, stdout=fo, stderr=subprocess.PIPE, text=True)
+            if pr.returncode != 0:
+                res["errors"].append(f"egdriver run rc={pr.returncode}: {pr.stderr[-200:]}")
+            impl = open(os.path.join(outdir, "impl.txt")).read().split("\n")
+            model = open(os.path.join(outdir, "model.txt")).read().split("\n")
+            for k in range(res["n_ops"]):
+                mline = model[k] if k < len(model) else "<missing>"
+                if mline == "skip":
+                    continue
+                res["n_compared"] += 1
+                if mline != impl[k]:
+                    if len([d for d in res["disagreements"] if d]) < 50:
+                        res["disagreements"].append({"op_index": k, "op": ops[k][:2000], "impl": impl[k][:2000], "model": mline[:2000], "outdir": outdir})
+                    else:
+                        res["disagreements"].append(None)
+        return res
+
+    outdir = os.path.join(work, "run")
+    ops_file = None
+    replay_features = None
+    if replay:
+        rj = json.load(open(replay))
+        os.makedirs(outdir, exist_ok=True)
+        ops_file = os.path.join(outdir, "replay.ops")
+        with open(ops_file, "w") as f:
+            for o in rj.get("ops", []):
+                f.write(o + "\n")
+        replay_features = rj.get("features")
+    main_run = harness_run(tier, outdir, features=replay_features, ops_file=ops_file)
+    broken_theorems.extend(main_run["errors"])
+    dist = main_run["dist"]
+    failures = list(main_run["failures"])
+    disagreements = list(main_run["disagreements"])
+    n_ops = main_run["n_ops"]
+    n_compared = main_run["n_compared"]
+    extra_runs = []
+    # thorough: the same check against the `fixed_point` feature build where the property mentions it
+    if tier == "thorough" and not replay and pid in FIXED_POINT:
+        fp = harness_run("quick", os.path.join(work, "run-fixed_point"), features="fixed_point")
+        broken_theorems.extend(fp["errors"])
+        failures.extend(fp["failures"])
+        disagreements.extend(fp["disagreements"])
+        extra_runs.append({"features": "fixed_point", "tier": "quick", "ops": fp["n_ops"], "compared": fp["n_compared"],
+                           "oracle_failures": len(fp["failures"]), "disagreements": len(fp["disagreements"])})
+    # a broken proof obligation or correspondence with no failing input yet: widen the search for one
+    if tier == "quick" and not replay and (broken_theorems or disagreements) and not failures:
+        say("tie broken, no failing input in the quick scope: searching the thorough scope (10 min limit)")
+        wide = harness_run("thorough", os.path.join(work, "run-search"), compare=False, timeout=600)
+        failures.extend(wide["failures"])
+        extra_runs.append({"search": "thorough scope", "ops": wide["n_ops"], "oracle_failures": len(wide["failures"]), "errors": wide["errors"]})
 
     # ---- 6 classify --------------------------------------------------------------------------
     known = []
@@ -345,13 +379,18 @@ def main():
                         known.append(k)
                 except Exception:
                     pass
-    ops_lines = None
+    ops_cache = {}
 
-    def op_text(idx):
-        nonlocal ops_lines
-        if ops_lines is None:
-            ops_lines = open(os.path.join(outdir, "ops.txt")).read().split("\n")
-        return ops_lines[idx] if idx < len(ops_lines) else "?"
+    def op_text(f):
+        """op line of a failure / disagreement record (each run has its own ops.txt)"""
+        d = f.get("outdir", outdir)
+        if d not in ops_cache:
+            try:
+                ops_cache[d] = open(os.path.join(d, "ops.txt")).read().split("\n")
+            except OSError:
+                ops_cache[d] = []
+        idx = f["op_index"]
+        return ops_cache[d][idx] if idx < len(ops_cache[d]) else "?"
 
     known_seen = {}
     new_failures = []
@@ -364,14 +403,14 @@ def main():
             new_failures.append(f)
     # a disagreement on an op whose only oracle failures are known findings is the same finding
     # seen from the model's side (the model describes the property-conforming behaviour there)
-    known_ops = {f["op_index"] for f in failures if any(k["class"] == f["class"] for k in known)}
-    real_disagreements = [d for d in disagreements if d is None or d["op_index"] not in known_ops]
+    known_ops = {(f.get("outdir"), f["op_index"]) for f in failures if any(k["class"] == f["class"] for k in known)}
+    real_disagreements = [d for d in disagreements if d is None or (d.get("outdir"), d["op_index"]) not in known_ops]
 
     # ---- 7 verdict ---------------------------------------------------------------------------
     violations = 0
     lines = []
     for cls, ks in known_seen.items():
-        lines.append(f"KNOWN-FINDING: property={pid} {ks['finding'].get('what', cls)} [{cls}; {ks['count']} case(s) this run, e.g. `{op_text(ks['first']['op_index'])[:120]}`]")
+        lines.append(f"KNOWN-FINDING: property={pid} {ks['finding'].get('what', cls)} [{cls}; {ks['count']} case(s) this run, e.g. `{op_text(ks['first'])[:120]}`]")
 
     def write_replay(name, body):
         path = os.path.join(VERIF, "replays", name)
@@ -386,10 +425,10 @@ def main():
         for f in new_failures:
             by_class.setdefault(f["class"], []).append(f)
         for cls, fs in by_class.items():
-            fs.sort(key=lambda f: (len(op_text(f["op_index"])), f["op_index"]))
+            fs.sort(key=lambda f: (len(op_text(f)), f["op_index"]))
             f0 = fs[0]
             path = write_replay(f"{stamp}-{re.sub('[^A-Za-z0-9_.-]', '_', cls)[:60]}.json", {
-                "property": pid, "kind": "oracle-failure", "class": cls, "ops": [op_text(f0["op_index"])],
+                "property": pid, "kind": "oracle-failure", "class": cls, "ops": [op_text(f0)], "features": f0.get("features"),
                 "detail": f0["detail"], "count": len(fs),
                 "replay_cmd": f"./check {pid} --replay <this file>",
             })
@@ -445,6 +484,7 @@ def main():
             "input_distribution": dist.get("counters", {}),
             "translator": translate_info,
             "notes": tie_notes,
+            "extra_runs": extra_runs,
         },
         "assumptions": [
             "Rust generics are parametric in the draw target (a drawable cannot observe which target it draws to)",
